@@ -1,9 +1,10 @@
 (* C08 — Acknowledged data survives a clean restart, exactly once.
    Statements are about Model/WalSM.v: histories are lists of operations
    {OIngest (event buffer into any set of tables), OFlush (forced or background, any size oracle),
-    OEvict, ORestart}, executed by the guarded run [run true] (which stops at the known-defect sites
-   F1/F3 of compaction instead of executing them; the guarded run agrees with the faithful run
-   wherever it succeeds: Proofs.WalSM.run_guard). *)
+    OEvict, ORestart}, executed by the guarded run [run true] (which stops at the site of the open
+   finding F1 of compaction instead of executing it - and at an incomplete name set, unreachable
+   for well-formed requests, C13_compaction_carries_all; the guarded run agrees with the faithful
+   run wherever it succeeds: Proofs.WalSM.run_guard). *)
 From Coq Require Import NArith ZArith List Bool.
 From LV Require Import Model.TableSM Model.Catalogue Model.WalSM
      Proofs.TableSM Proofs.WalSMBase Proofs.WalSM Proofs.WalSMLog.
@@ -73,7 +74,7 @@ Proof. intros c ops s H. apply recover_outcome. eapply reachable_inv; eauto. Qed
 (* non-vacuity: three tables, a flush between two restarts, compaction at every flush (factor 0
    with the sizes given by the oracle), a background flush enabled by max_wal_files = 1 *)
 Definition ex_cfg : cfg :=
-  {| c_factor := 0; c_max_wal_files := 1; c_max_wal_bytes := 1000000; c_seed := s_column_names |}.
+  {| c_factor := 0; c_max_wal_files := 1; c_max_wal_bytes := 1000000 |}.
 Definition ex_t1 : name := [116; 49].
 Definition ex_t2 : name := [116; 50].
 Definition ex_t3 : name := [116; 51].
